@@ -639,6 +639,8 @@ func (w *world) build(c acase, own, val int, alt string, ai int, as string) (ent
 		idx = 0
 	case "idxN1":
 		idx = w.n + 1
+	case "idxWrap": // out of range, congruent to the signing share's index modulo a power of two
+		idx = own + []int{0, -512, -256, 256, 512, 65536, -65536, 1 << 24}[ai%8]
 	case "idxOther":
 		idx = ai
 	}
